@@ -95,8 +95,9 @@ impl<D: Doc> Root<D> {
   // extract non generic implementation to reduce code size
   pub fn do_edit(&mut self, edit: Edit<D>) -> Result<(), TSParseError> {
     let source = self.doc.get_source_mut();
-    let input_edit = perform_edit(&mut self.inner, source, &edit);
-    self.inner.edit(&input_edit);
+    // perform_edit has already applied the edit to the old tree: applying it twice corrupts
+    // the ranges tree-sitter reuses during the incremental parse
+    perform_edit(&mut self.inner, source, &edit);
     self.inner = self.doc.parse(Some(&self.inner))?;
     Ok(())
   }
